@@ -15,7 +15,7 @@
 (* dry_equals_real_path_mode_override (every strategy; only "custom path" is never answered),             *)
 (* dry_equals_real_path_mode_general (both).                                                              *)
 From Tempren Require Import Base.Str Py.PathLib Py.PathLibProofs FS.Model FS.Lemmas FS.RealpathAgree FS.DirExt
-  FS.WfCheck Pipe.Pipeline Pipe.DestParent Pipe.DrySim Pipe.Confined Pipe.ConfinedMove Pipe.PlanExact Pipe.PlanExactPath
+  FS.WfCheck Pipe.Pipeline Pipe.DestParent Pipe.BacklogVerify Pipe.DrySim Pipe.Confined Pipe.ConfinedMove Pipe.PlanExact Pipe.PlanExactPath
   FS.PlainPaths Pipe.DryEqualsReal.
 Open Scope N_scope.
 
@@ -988,6 +988,25 @@ Proof.
   - inversion PB as [|? ? BO PB']; subst. pose proof BO as [SO Hne]. cbn [fst snd] in SO, Hne.
     cbn [pD pR c_var fixed v_backlog_chdir].
     destruct (chdir_simp _ _ _ _ S (so_dir _ _ _ SO) (so_src _ _ _ SO)) as [-> ->].
+    (* the tests run again before the entry is retried (F38) say yes in both worlds, as in the first pass *)
+    set (f := {| pf_dir := d; pf_rel := src |}).
+    pose proof (so_dir _ _ _ SO) as Ld. pose proof (so_src _ _ _ SO) as Ps.
+    pose proof (so_dst _ _ _ SO) as Dd. pose proof (SimP_dest_ok _ _ _ _ _ S SO) as Dx.
+    pose proof (pr_ddd _ _ _ Ps) as Hddd.
+    rewrite (sp_fs _ _ S).
+    assert (V0 : backlog_verify fixed s0 d src dst = None).
+    { apply (backlog_verify_yes fixed s0 f dst).
+      - exact (contained_dm s0 f dst Hddd Dd).
+      - rewrite dest_parent_test_fixed. exact (dest_parent_contained_dm s0 f dst Ld Hddd Dd).
+      - exact (parents_contained_dm s0 f dst W0 Ld Hddd Dd).
+      - exact (source_contained_rel s0 f W0 Ps). }
+    assert (Vr : backlog_verify fixed (w_fs wr) d src dst = None).
+    { apply (backlog_verify_yes fixed (w_fs wr) f dst).
+      - exact (contained_dm (w_fs wr) f dst Hddd Dx).
+      - rewrite dest_parent_test_fixed. exact (dest_parent_contained_dm (w_fs wr) f dst (SimP_dir_stays _ _ _ S Ld) Hddd Dx).
+      - exact (parents_contained_dm (w_fs wr) f dst (sp_wf _ _ S) (SimP_dir_stays _ _ _ S Ld) Hddd Dx).
+      - exact (source_contained_rel (w_fs wr) f (sp_wf _ _ S) (SimP_plain_rel _ _ _ _ S Ps)). }
+    rewrite V0, Vr. clear V0 Vr Dd Dx Ld Ps Hddd. clear f.
     destruct (renamer pD wd d src dst false) as [wd1 ed1] eqn:Rd.
     destruct (renamer pR wr d src dst false) as [wr1 er1] eqn:Rr.
     destruct (simp_renamer _ _ _ _ _ _ _ _ _ S SO Rd Rr) as [E S1]. subst er1.
